@@ -9,6 +9,8 @@ A grammar maps a name to "atom<k>" or to a list of alternative rules (op, childr
   root   R = X_1 + ... + X_k            (k = 2, 3)   or   R = X_1 x X_2 (words of length >= 2, with multiplicity)
 The counting sequences are computed here, independently of the library, from the first rule of every class; `well_formed`
 checks that every alternative rule gives the same sequence."""
+import random as random_mod
+
 from comb_spec_searcher import (
     AtomStrategy,
     CartesianProductStrategy,
@@ -31,7 +33,7 @@ _COUNT, _BUSY = {}, set()
 
 def rule_counts(gid, rule, n):
     op, children = rule
-    if op in ("+", "="):
+    if op in ("+", "=", "~"):
         return sum(counts(gid, c, n) for c in children)
     res = {0: 1}
     for c in children:
@@ -168,9 +170,15 @@ class AltAlias(_Alt, DisjointUnionStrategy):
         return False
 
 
+class AltEquiv(_Alt, DisjointUnionStrategy):
+    """a unary two-way rule that is a declared equivalence (a size-preserving bijection between two classes)"""
+
+    OP = "~"
+
+
 def pack(max_rules=3):
     return StrategyPack(initial_strats=[], inferral_strats=[],
-                        expansion_strats=[[s(k) for k in range(max_rules) for s in (AltUnion, AltProduct, AltAlias)]],
+                        expansion_strats=[[s(k) for k in range(max_rules) for s in (AltUnion, AltProduct, AltAlias, AltEquiv)]],
                         ver_strats=[AtomStrategy()], name="table pack")
 
 
@@ -223,3 +231,73 @@ def rand_grammar(rnd, gid, plan):
     for key in [key for key in _COUNT if key[0] == gid]:
         del _COUNT[key]
     return g
+
+
+def rand_sym_pair(rnd, gid1, gid2):
+    """two finite universes over the same base classes (products and unions of atoms of sizes 0..3), decorated independently
+    with declared equivalences: a class X and its padding E x X, a class and its mirror image (copies of the children, listed in
+    the opposite order), copies. Equivalence classes then contain atoms next to classes with a decomposition, and several rules
+    that coincide up to equivalence but list their children differently."""
+    atoms = {"E": "atom0", "Z": "atom1", "W": "atom2", "T": "atom3"}
+    base_rnd = random_mod.Random(rnd.randrange(10**9))
+    base, pool = {}, ["Z", "W", "T"]
+    for i in range(base_rnd.randint(2, 4)):
+        op = base_rnd.choice(["x", "x", "+"])
+        kids = tuple(base_rnd.choice(pool + (["E"] if op == "x" else [])) for _ in range(2))
+        if op == "x" and kids == ("E", "E"):
+            kids = ("E", "Z")
+        base[f"C{i}"] = [(op, kids)]
+        pool.append(f"C{i}")
+    root_kids = tuple(base_rnd.sample(pool, min(len(pool), base_rnd.choice([2, 2, 3]))))
+    root_op = base_rnd.choice(["+", "+", "x"])
+    for gid in (gid1, gid2):
+        g = dict(atoms)
+        g.update({k: list(v) for k, v in base.items()})
+        fresh = [0]
+
+        def new(prefix):
+            fresh[0] += 1
+            return f"{prefix}{fresh[0]}"
+
+        def decorate(x):
+            """a class equinumerous to x, linked to it by declared equivalences"""
+            r = rnd.random()
+            if r < 0.3:
+                return x
+            if r < 0.55:  # padding: P = E x X' for an unlinked copy X' of X (its own classes), and P ~ X
+                def dup(y):
+                    d = new("D")
+                    g[d] = g[y] if isinstance(g[y], str) else [(g[y][0][0], tuple(dup(z) for z in g[y][0][1]))]
+                    return d
+
+                xc = dup(x)
+                p = new("P")
+                g[p] = [("x", ("E", xc) if rnd.random() < 0.5 else (xc, "E"))]
+                if rnd.random() < 0.6 or isinstance(g[x], str):
+                    g[p].append(("~", (x,)))
+                else:
+                    g[x] = g[x] + [("~", (p,))]
+                return p
+            if r < 0.8 and not isinstance(g[x], str) and len(g[x][0][1]) == 2:  # mirror: copies of the children, other order
+                op, (a, b) = g[x][0]
+                a2, b2 = new("K"), new("K")
+                g[a2] = [("~", (a,))]
+                g[b2] = [("~", (b,))]
+                m = new("M")
+                g[m] = [(op, (b2, a2))]
+                if rnd.random() < 0.5:
+                    g[m].append(("~", (x,)))
+                else:
+                    g[x] = g[x] + [("~", (m,))]
+                return m
+            k = new("K")  # a plain copy
+            g[k] = [("~", (x,))]
+            return k
+
+        kids = tuple(decorate(k) for k in root_kids)
+        if rnd.random() < 0.5:
+            kids = tuple(reversed(kids))
+        g["R"] = [(root_op, kids)]
+        GRAMMARS[gid] = g
+        for key in [key for key in _COUNT if key[0] == gid]:
+            del _COUNT[key]
